@@ -56,7 +56,8 @@ THEOREMS = [
     "OllamaVerif.C19.join_step_conservative",
 ]
 OVERLAY = {"server/zz_verif_c19_test.go": "server/zz_verif_c19_test.go",
-           "server/zz_verif_c19tmpl_test.go": "server/zz_verif_c19tmpl_test.go"}
+           "server/zz_verif_c19tmpl_test.go": "server/zz_verif_c19tmpl_test.go",
+           "server/zz_verif_c19handler_test.go": "server/zz_verif_c19handler_test.go"}
 OVERLAY_RUNNER = {"runner/ollamarunner/zz_verif_c19_test.go": "runner_ollamarunner/zz_verif_c19_test.go"}
 
 
@@ -72,6 +73,19 @@ def run(ctx):
     ctx.read_stats(outdir)
     ctx.l1(outdir)
     ctx.classify(ctx.l2(outdir))
+
+    # handler level: POST /api/chat through the real CreateHandler + ChatHandler with a mock runner
+    if not ctx.replay or "hchat " in open(env["VERIF_REPLAY"]).read():
+        henv = {"VERIF_N": ctx.scale(400, 6000)}
+        if ctx.replay:
+            henv["VERIF_REPLAY"] = env["VERIF_REPLAY"]
+        rc, out, houtdir = ctx.go_test("./server/", OVERLAY, "^TestVerifC19Handler$", env=henv)
+        if rc != 0:
+            ctx.violation("driver-failed", "", out[-1500:], no_input=True)
+        st = ctx.read_stats(houtdir)
+        ctx.coverage["handler_level_cases"] = st.get("cases", 0)
+        ctx.l1(houtdir, label="L1-handler")
+        ctx.classify(ctx.l2(houtdir))
 
     # runner side: the REAL ollamarunner `inputs` on the (prompt, images) pairs the real chatPrompt just
     # produced, plus generated adversarial pairs
